@@ -513,3 +513,15 @@ Theorem c05_code_try_parse_partial_response : forall slots input,
   = try_parse_partial_response slots input.
 Proof. exact gen_try_parse_partial_response_eq. Qed.
 Print Assumptions c05_code_try_parse_partial_response.
+
+(* ================================================================== the whole chain in translated code *)
+(** Chained: from what httparse returns on the input, through the two translated parsers of src/parser.rs, to the answer of the
+    translated Call<RecvResponse>::try_response -- equal to the model's [call_try_response] (proofs/Gen2_equiv_call_parser.v). *)
+From Hoot.proofs Require Import Gen2_equiv_call_parser.
+Theorem c05_code_call_try_response_chain : forall c input,
+  gen_call_try_response (c_reader c) (am_method (c_req c)) input
+    (gen_parse_n (N.to_nat MAX_RESPONSE_HEADERS) input)
+    (gen_parse_partial_n (N.to_nat MAX_RESPONSE_HEADERS) input)
+  = lift_try (call_try_response c input).
+Proof. exact gen_call_try_response_chain. Qed.
+Print Assumptions c05_code_call_try_response_chain.
